@@ -60,7 +60,7 @@ theorem buildBatch_root (c : PCtx) (st : Step) (hroot : isRootName st.parentType
 theorem findIP_q (h : Fam c A B T q fs) (i : String) (a : List (String × J)) :
     findIP [q] [Qown T q fs] (respA q i a) [] = .ok [[pointQ q i]] := by
   have hfs : findSelection q [Qown T q fs] = some (Qown T q fs) := by
-    simp [findSelection, findSelectionSel, Qown]
+    exact findSelection_head q q [] [] _ [] _ [] q (by simp)
   unfold findIP
   rw [hfs]
   simp [respA, J.lookup, selType, Qown, TypeRef.isNonNull, TypeRef.isList, extractID, bind, Except.bind, fmtID,
